@@ -22,6 +22,7 @@ const EXH_DOC: &str = " Exhaustive small-scope leg: for each of 6 curated hostil
 pub fn run(args: &Args) -> Report {
   let replay = match (args.get("sub"), args.get_u64("case")) { (Some(m), Some(c)) => Some((m.to_string(), c)), _ => None };
   let replay_is_none = replay.is_none();
+  if matches!(&replay, Some((c, _)) if c == "builtin-checkers") { return crate::c12::builtin_checker_builds(if args.property == "C03" { "C03" } else { "C01" }, args.seed); }
   if matches!(&replay, Some((c, _)) if c == "file-writes") { return crate::fwrite::run(if args.property == "C06" { "C06" } else { "C05" }, args.seed); }
   let scale: u64 = (if args.tier == "thorough" { 600 } else { 20 }) * util::env_u64("PV_SCALE", 1);
   let t = args.tier.as_str();
@@ -42,7 +43,8 @@ pub fn run(args: &Args) -> Report {
       let mut r = with_exhaustive(wf::run_classes("C01", t, s, &[CP { name: "td-exact", n: 4000 * scale }, CP { name: "td-mixed", n: 6000 * scale }, CP { name: "td-soak-any", n: 15 * scale }, CP { name: "td-fc-mixed", n: 2500 * scale }], replay.clone()), "C01", t, s, &replay);
       r.rule = format!("{}Class: top-down-only histories. Monitor: every value returned by Session::require and, after the session, every resource content is compared with the from-scratch interpreter Ref run on the state the session started from (thorough: also a fresh Pie). distinct = digest of the case (program, initial state, history); non-trivial = a case with at least one session in which at least one previously completed task was re-executed AND at least one was reused after validation.", CLASS_DOC);
       match &replay { Some((c, n)) if c == "files" => { r = wf::run_files("C01", s, 0, Some(*n)); } Some(_) => {} None => r.merge(wf::run_files("C01", s, 150 * scale, None)) }
-      r.rule.push_str(" File-backed slice: the same generated programs over pie's real PathBuf resource on a temporary directory with the real HashChecker / ExistsChecker / ModifiedChecker (modification times set explicitly and strictly increasing) and EqualsChecker / AlwaysConsistent, outputs and file contents compared with Ref.");
+      if replay_is_none { r.merge(crate::c12::builtin_checker_builds("C01", s)); }
+      r.rule.push_str(" Built-in output checkers: a requirer whose output is exactly what its checker (Equals / OkEquals / ErrEquals / Result / AlwaysConsistent) observes of a Result output, for all 8 x 8 transitions of that output. File-backed slice: the same generated programs over pie's real PathBuf resource on a temporary directory with the real HashChecker / ExistsChecker / ModifiedChecker (modification times set explicitly and strictly increasing) and EqualsChecker / AlwaysConsistent, outputs and file contents compared with Ref.");
       r.floor("outputs compared with Ref", r.get("outputs_compared_with_ref") > 1000);
       r.floor("re-executions and reuses both observed", r.get("re_executions") > 100 && r.get("reuses_after_validation") > 100);
       r
@@ -59,7 +61,8 @@ pub fn run(args: &Args) -> Report {
       let mut r = with_exhaustive(wf::run_classes("C03", t, s, &[CP { name: "pure-exact", n: 3000 * scale }, CP { name: "pure-mixed", n: 4000 * scale }, CP { name: "mixed-any", n: 4000 * scale }, CP { name: "pure-soak-any", n: 15 * scale }, CP { name: "pure-fc-any", n: 2500 * scale }], replay.clone()), "C03", t, s, &replay);
       r.rule = format!("{}Classes: pure histories (every batch of external changes is reported to a bottom-up build before any partial top-down build) and mixed histories. Monitor: after every bottom-up build a probe session requires every known task in shuffled order: nothing may execute, outputs and resources must equal Ref, no abort; requires issued after the update in the same session count as well. In mixed histories an execution in the probe must be explained by the K1 classifier (producer last executed by a partial top-down build while changes were pending) or it is a violation; pure histories have no suppression. non-trivial = a distinct case with a bottom-up build that re-executed a completed task.", CLASS_DOC);
       match &replay { Some((c, n)) if c == "files" => { r = wf::run_files("C03", s, 0, Some(*n)); } Some(_) => {} None => r.merge(wf::run_files("C03", s, 150 * scale, None)) }
-      r.rule.push_str(" File-backed slice: the same generated programs over pie's real PathBuf resource and real file checkers, bottom-up builds scheduled with the changed paths, followed by the same probe.");
+      if replay_is_none { r.merge(crate::c12::builtin_checker_builds("C03", s)); }
+      r.rule.push_str(" Built-in output checkers: the same 5 x 64 transitions as in C01, brought up to date by a bottom-up build. File-backed slice: the same generated programs over pie's real PathBuf resource and real file checkers, bottom-up builds scheduled with the changed paths, followed by the same probe.");
       r.floor("probes ran", r.get("c03_probes") > 1000);
       r.floor("bottom-up builds executed tasks", r.get("bottom_up_executions") > 500);
       r.floor("queue length >= 4 observed", r.get("max_bottom_up_queue") >= 4);
